@@ -598,7 +598,10 @@ read_dns_withq(int dns_fd, int tun_fd, char *buf, int buflen, struct query *q)
 			int thispartlen, dataspace, datanew;
 
 			while (1) {
-				thispartlen = strlen(buf);
+				/* buf is only known to be terminated when the answer
+				   really was an MX/SRV record; do not scan past it */
+				char *nul = memchr(buf, '\0', buftotal);
+				thispartlen = nul ? (int) (nul - buf) : buftotal;
 				thispartlen = MIN(thispartlen, buftotal-bufoffset);
 				dataspace = sizeof(data) - dataoffset;
 				if (thispartlen <= 0 || dataspace <= 0)
